@@ -329,13 +329,14 @@ PROPS = {
         "assumptions": ["bufio.Scanner stops with an error at a token > 64 KiB"],
     },
     "C16": {
-        "streams": ["sched-rec"],
+        "streams": ["sched-rec", "rec-tick"],
         "gen": True,
         "rule": "sched-rec (isolated child, 20 s watchdog per case): interval recorder (tickers of 50 us - 2 ms) and synchronized recorder over a raw recorder, 1-8 goroutines x 1-60 "
                 "increments x 1-6 begin/EndTest cycles; one third with the flusher held between its tick and the mutex across EndTest (hook interval.tick), one third with seeded "
                 "perturbation at every schedule point, one third with a slow collector (every Add takes 0.2-3 ms, EndTest arrives while a flush is in progress). Observed: every call returns, no Add "
-                "completes after EndTest returned, the collector is never called from two goroutines at once, persisted counters per cycle (monotone, final = G*M), goroutine profile after EndTest/Reset. "
-                "Distinct = distinct case line.",
+                "completes after EndTest returned, the collector is never called from two goroutines at once, persisted counters per cycle (monotone, final = G*M), goroutine profile after EndTest/Reset; concurrent-begin cases (every worker opens the iteration, "
+                "hundreds of short cycles), both interval recorders. rec-tick (shared with C15): 2 ms interval recorders over a collector that fails on chosen calls; after EndTest or Reset has returned "
+                "nothing reaches the collector any more. Distinct = distinct case line.",
         "level_text": "Theorems (Props/C16.lean): all_lock_balanced — the lock/unlock/return skeleton of every mutex-taking method, REGENERATED from /repo's sources on every run "
                       "(harness/cmd/extract -> Gen/Facts.lean), releases the mutex on every return path (kernel-evaluated); every_path_releases_the_mutex: by the soundness of that checker against an independent path "
                       "semantics (Lemmas/LockSound.lean: a branch runs one alternative, a loop body any number of times), no such method has a path that unlocks a mutex it does not "
